@@ -727,7 +727,7 @@ class OutputSchemaBuilder(
         for field in fields:
             if not field.is_aggregate:
                 normal_field = NormalField(
-                    self.aliaser(field.name),
+                    self.aliaser(field.alias),
                     field.name,
                     self._field(tp, field),
                     field.ordering,
